@@ -64,9 +64,11 @@ Construct ==
   /\ UNCHANGED <<cfg, k, lval, sval, pv, cv, pend, lst, lit, sst, sit, npass, order, hist, nB, nA>>
 
 (* an offset pointing outside the span is rejected before anything changes (as for a single model) *)
+MaxSeq(f) == IF cfg.n = 0 THEN 0 ELSE CHOOSE m \in 0..10 : (\A i \in Subs : f[i] <= m) /\ (\E i \in Subs : f[i] = m)
+Infeasible == TPos - MaxSeq(cfg.lags) < 0 \/ TPos + MaxSeq(cfg.leads) >= cfg.L
 GuardOffset ==
   /\ pc = "guard"
-  /\ IF cfg.offset # 0 /\ (TPos + cfg.offset < 0 \/ TPos + cfg.offset >= cfg.L)
+  /\ IF Infeasible \/ (cfg.offset # 0 /\ (TPos + cfg.offset < 0 \/ TPos + cfg.offset >= cfg.L))
        THEN Finish("IndexError")
        ELSE pc' = "validate" /\ UNCHANGED res
   /\ UNCHANGED <<cfg, k, lval, sval, pv, cv, pend, lst, lit, sst, sit, npass, order, hist, nB, nA>>
@@ -125,7 +127,7 @@ JudgeWith(below) ==
             THEN pend' = "." /\ nA' = nA + 1 /\ pc' = "stamp"
             ELSE pc' = "loop" /\ UNCHANGED <<pend, nA>>
   /\ UNCHANGED <<cfg, k, lval, sval, pv, cv, lst, lit, sst, sit, npass, order, hist, nB, res>>
-Judge == JudgeWith(\A i \in 1..Len(cv) : Abs(cv[i] - pv[i]) < cfg.tol)
+Judge == pc = "judge" /\ JudgeWith(\A i \in 1..Len(cv) : Abs(cv[i] - pv[i]) < cfg.tol)
 
 (* linkers.py:515-520 *)
 Stamp ==
@@ -152,7 +154,7 @@ Done == pc = "done"
 (* Declarative layer (C08): functions of cfg and hist only *)
 SpansOK      == \A i \in Subs : cfg.spanOK[i]
 SelOK        == \A i \in 1..Len(Sel) : Sel[i] \in Subs
-OffsetBad    == cfg.offset # 0 /\ (TPos + cfg.offset < 0 \/ TPos + cfg.offset >= cfg.L)
+OffsetBad    == Infeasible \/ (cfg.offset # 0 /\ (TPos + cfg.offset < 0 \/ TPos + cfg.offset >= cfg.L))
 Seeded       == cfg.offset # 0 /\ ~OffsetBad
 LinkStart    == IF Seeded THEN cfg.lsrc ELSE cfg.l0
 SubStart(s)  == IF Seeded /\ s \in SelSet THEN cfg.vsrc[s] ELSE cfg.v0[s]
